@@ -69,27 +69,13 @@ impl ParsedMessage {
             let padding = padding_usize(attr_len);
 
             let value_begin = usize::try_from(cursor.position())?;
-            let mut value_end = value_begin + attr_len;
+            let value_end = value_begin + attr_len;
             let padding_end = value_end + padding;
 
             if padding_end > cursor.get_ref().len() {
                 return Err(Error::InvalidData(
                     "Invalid attribute length in STUN message",
                 ));
-            }
-
-            // https://datatracker.ietf.org/doc/html/rfc8489#section-14
-            // explicitly states that the length field must contain the
-            // value length __prior__ to padding. Some stun agents have
-            // the padding included in the length anyway. This double
-            // checks and removes all bytes from the end of the value.
-            if padding == 0 {
-                let value = &cursor.get_ref()[value_begin..value_end];
-
-                // count all zero bytes at the end of the value
-                let counted_padding = value.iter().rev().take_while(|&&b| b == 0).count();
-
-                value_end -= counted_padding;
             }
 
             let attr = ParsedAttr {
